@@ -13,6 +13,7 @@ verus! {
 //@include ../shim/zip.rs
 //@include ../shim/realnum.rs
 //@include ../shim/axes.rs
+//@include ../shim/iterchain.rs
 
 // one step of West's recurrence, in exact arithmetic:
 // from  m*W == P  and  S == Q - m^2 W  to the same facts for the sums extended by the observation (x, w), W + w != 0
@@ -256,16 +257,31 @@ impl<A, D: Dimension> ArrayN<A, D> {
 //@end
 }
 
-// TRUSTED (A-ITER): an iterator chain (IterBinomial.zip(rev).map.collect) outside the verifier's reach; its contract is
-// read off the body and exercised by enum:moments (bounded): coefficient k is C(len, k) * moments[len-1-k]
-#[verifier::external_body]
+// num_integer::IterBinomial::new(n): the binomial coefficients C(n, 0), ..., C(n, n) (A-ITER; machine overflow of the
+// coefficients is not modelled)
+pub struct IterBinomial { pub _p: () }
+impl IterBinomial {
+    #[verifier::external_body]
+    pub fn new(n: usize) -> (r: SeqIter<usize>)
+        ensures r.items@.len() == n + 1, forall|k: int| 0 <= k <= n ==> #[trigger] r.items@[k] == binom(n as nat, k as nat)
+    { unimplemented!() }
+}
+
+//@extract file=src/summary_statistics/means.rs fn=central_moment_coefficients id=central_moment_coefficients tags=C07 body_tags=C07
+//@sig
 fn central_moment_coefficients<A>(moments: &[A]) -> (r: Vec<A>)
 where
     A: Float + FromPrimitive,
+//@spec
     requires real_model::<A>(), real_from_usize::<A>(),
-    ensures r@.len() == moments@.len(),
-        forall|k: int| 0 <= k < r@.len() ==> (#[trigger] r@[k]).val() == (binom(moments@.len(), k as nat) as real) * moments@[moments@.len() - 1 - k].val(),
-{ unimplemented!() }
+    ensures r@.len() == moments@.len(), // [C07]
+        // coefficient k of the expansion of order p = len - 1 around the mean is C(p, k) * m_{p-k}
+        forall|k: int| 0 <= k < r@.len() ==> (#[trigger] r@[k]).val() == (binom((moments@.len() - 1) as nat, k as nat) as real) * moments@[moments@.len() - 1 - k].val(), // [C07]
+//@rename_call iter verif_iter
+//@closure 0
+|binom: usize, moment_ref: &A| -> (c: A) ensures c.val() == (binom as real) * (*moment_ref).val()
+let moment = *moment_ref;
+//@end
 
 //@extract file=src/summary_statistics/means.rs fn=moments id=moments tags=C07 body_tags=C07
 //@sig
@@ -339,7 +355,7 @@ impl<A, D: Dimension> ArrayN<A, D> {
                 proof {
                     let cs = vals(coefficients@);
                     rl_zero(horner_from(cs, 1, 0real));
-                    assert(binom(coefficients@.len(), 0) == 1);
+                    assert(binom((coefficients@.len() - 1) as nat, 0) == 1);
                     assert(cs[0] == 1real * shifted_moments@[order as int].val());
                 }
 //@end
@@ -395,7 +411,7 @@ impl<A, D: Dimension> ArrayN<A, D> {
                     proof {
                         let cs = vals(coefficients@);
                         rl_zero(horner_from(cs, 1, 0real));
-                        assert(binom(coefficients@.len(), 0) == 1);
+                        assert(binom((coefficients@.len() - 1) as nat, 0) == 1);
                         assert(cs[0] == 1real * shifted_moments@[k as int].val());
                         assert(central_moment.val() == cmoment_def(xs, k as nat));
                     }
